@@ -1,7 +1,7 @@
 (* Proofs/HdStrP.v — extended-key STRINGS survive parse exactly: the 78-byte round trip of
    Proofs/HdCodecP.v composed with the Base58Check round trip of Proofs/Base58P.v (C09). *)
 From V Require Import Base.Prelude Base.Ints Model.Pecc Model.Base58 Model.Hd Model.HdStr
-  Generated.HdVersions Proofs.GroupHyp Proofs.HdP Proofs.HdCodecP Proofs.Base58P.
+  Generated.HdVersions Proofs.GroupHyp Proofs.PeccEnc Proofs.HdP Proofs.HdCodecP Proofs.Base58P Proofs.Base58ConvP.
 
 Lemma known_xprv_bytes v : known_xprv v = true -> bytes_ok v.
 Proof.
@@ -81,4 +81,193 @@ Proof.
   intros Hraw Hb. destruct (base58check_roundtrip hash256 hash_len hash_ok raw Hb) as (s & He & _).
   exists s. unfold xprv_str, xprv_raw. rewrite Hraw. exact He.
 Qed.
+
+(* version=None is the key's own version *)
+Lemma xprv_str_default (k : hdpriv) : xprv_str hash256 k None = xprv_str hash256 k (Some (sk_ver k)).
+Proof. reflexivity. Qed.
+Lemma xpub_str_default (k : hdpub) : xpub_str hash256 k None = xpub_str hash256 k (Some (pk_ver k)).
+Proof. reflexivity. Qed.
+
+(* ---- rejection at the string level ----
+   [raw ++ c] is what the Base58 digits carry: payload and four check bytes. *)
+
+(* check bytes different from hash256(payload)[:4]: raw_decode_base58 raises *)
+Lemma raw_decode_bad_checksum raw c s :
+  bytes_ok raw -> bytes_ok c -> length c = 4%nat -> c <> firstn 4 (hash256 raw) ->
+  encode_base58 (raw ++ c) = Ok s -> raw_decode_base58 hash256 s = Err.
+Proof.
+  intros Hr Hc Hl Hne He. unfold raw_decode_base58.
+  rewrite (b58_to_bytes_encode _ _ (proj2 (bytes_ok_app raw c) (conj Hr Hc)) He). cbn [bind].
+  destruct (split_last4 raw c Hl) as [-> ->].
+  destruct (beq _ _) eqn:E; [|reflexivity]. apply beq_eq in E. congruence.
+Qed.
+
+Lemma xkey_str_bad_checksum raw c s :
+  bytes_ok raw -> bytes_ok c -> length c = 4%nat -> c <> firstn 4 (hash256 raw) ->
+  encode_base58 (raw ++ c) = Ok s ->
+  parse_priv_str C hash256 s = Err /\ parse_pub_str C hash256 s = Err.
+Proof.
+  intros Hr Hc Hl Hne He. unfold parse_priv_str, parse_pub_str.
+  rewrite (raw_decode_bad_checksum raw c s Hr Hc Hl Hne He). split; reflexivity.
+Qed.
+
+(* a correctly checksummed payload that is not 78 bytes long: "Not a proper extended key" *)
+Lemma xkey_str_wrong_length b s :
+  bytes_ok b -> length b <> 78%nat -> encode_base58_checksum hash256 b = Ok s ->
+  parse_priv_str C hash256 s = Err /\ parse_pub_str C hash256 s = Err.
+Proof.
+  intros Hb Hl He.
+  destruct (base58check_roundtrip hash256 hash_len hash_ok b Hb) as (s' & He' & _ & Hdec).
+  rewrite He in He'. inversion He'; subst s'.
+  unfold parse_priv_str, parse_pub_str. rewrite Hdec. cbn [bind]. unfold parse_priv, parse_pub.
+  apply Nat.eqb_neq in Hl. rewrite Hl. split; reflexivity.
+Qed.
+
+(* the payload was altered and the check bytes of the original kept: refused, unless the two
+   payloads collide on the first four bytes of hash256 *)
+Lemma xkey_str_tamper raw raw' s' :
+  bytes_ok raw -> bytes_ok raw' -> raw' <> raw ->
+  encode_base58 (raw' ++ firstn 4 (hash256 raw)) = Ok s' ->
+  (parse_priv_str C hash256 s' = Err /\ parse_pub_str C hash256 s' = Err) \/
+  firstn 4 (hash256 raw') = firstn 4 (hash256 raw).
+Proof.
+  intros Hr Hr' Hne He.
+  destruct (beq (firstn 4 (hash256 raw)) (firstn 4 (hash256 raw'))) eqn:E.
+  - right. apply beq_eq in E. congruence.
+  - left. apply (xkey_str_bad_checksum raw' (firstn 4 (hash256 raw)) s'); auto.
+    + apply bytes_ok_firstn, hash_ok.
+    + apply chk_len, hash_len.
+    + intros Heq. rewrite Heq, beq_refl in E. discriminate.
+Qed.
 End Str.
+
+(* ---- the statements of Props/C08.v ---- *)
+Theorem xprv_string_roundtrip :
+  forall C hash256,
+  (forall x, length (hash256 x) = 32%nat) -> (forall x, bytes_ok (hash256 x)) ->
+  cn C < pow256 32 -> 2 < cn C ->
+  forall (k : hdpriv) ver s,
+  known_xprv ver = true -> length (sk_pfp k) = 4%nat -> length (sk_cc k) = 32%nat ->
+  bytes_ok (sk_pfp k) -> bytes_ok (sk_cc k) -> pubkey C (sk k) = Ok (sk_pt k) ->
+  xprv_str hash256 k (Some ver) = Ok s ->
+  exists pv, tbl_get tbl_xpub (net_of_xprv ver) = Ok pv /\
+  parse_priv_str C hash256 s =
+    Ok {| sk := sk k; sk_pt := sk_pt k; sk_cc := sk_cc k; sk_depth := sk_depth k; sk_pfp := sk_pfp k;
+          sk_num := sk_num k; sk_net := net_of_xprv ver; sk_ver := ver; sk_pubver := pv |}.
+Proof.
+  intros C h Hl Ho Hn1 Hn2 k ver s A B D E F G.
+  apply (xprv_str_roundtrip C h Hl Ho k ver s Hn1 Hn2); auto. repeat split; assumption.
+Qed.
+
+(* version=None: the key's own version bytes *)
+Theorem xprv_string_roundtrip_default :
+  forall C hash256,
+  (forall x, length (hash256 x) = 32%nat) -> (forall x, bytes_ok (hash256 x)) ->
+  cn C < pow256 32 -> 2 < cn C ->
+  forall (k : hdpriv) s,
+  known_xprv (sk_ver k) = true -> length (sk_pfp k) = 4%nat -> length (sk_cc k) = 32%nat ->
+  bytes_ok (sk_pfp k) -> bytes_ok (sk_cc k) -> pubkey C (sk k) = Ok (sk_pt k) ->
+  xprv_str hash256 k None = Ok s ->
+  exists pv, tbl_get tbl_xpub (net_of_xprv (sk_ver k)) = Ok pv /\
+  parse_priv_str C hash256 s =
+    Ok {| sk := sk k; sk_pt := sk_pt k; sk_cc := sk_cc k; sk_depth := sk_depth k; sk_pfp := sk_pfp k;
+          sk_num := sk_num k; sk_net := net_of_xprv (sk_ver k); sk_ver := sk_ver k; sk_pubver := pv |}.
+Proof.
+  intros C h Hl Ho Hn1 Hn2 k s. rewrite xprv_str_default.
+  exact (xprv_string_roundtrip C h Hl Ho Hn1 Hn2 k (sk_ver k) s).
+Qed.
+
+Theorem xpub_string_roundtrip_enc :
+  forall C hash256,
+  (forall x, length (hash256 x) = 32%nat) -> (forall x, bytes_ok (hash256 x)) ->
+  (forall P s, valid C P -> sec P true = Ok s -> parse_point C s = Ok P) ->
+  forall (k : hdpub) ver s,
+  known_xpub ver = true -> length (pk_pfp k) = 4%nat -> length (pk_cc k) = 32%nat ->
+  bytes_ok (pk_pfp k) -> bytes_ok (pk_cc k) -> valid C (pk k) ->
+  xpub_str hash256 k (Some ver) = Ok s ->
+  parse_pub_str C hash256 s =
+    Ok {| pk := pk k; pk_cc := pk_cc k; pk_depth := pk_depth k; pk_pfp := pk_pfp k;
+          pk_num := pk_num k; pk_net := net_of_xpub ver; pk_ver := ver |}.
+Proof.
+  intros C h Hl Ho Hrt k ver s A B D E F G.
+  apply (xpub_str_roundtrip C h Hl Ho k ver s Hrt); auto. repeat split; assumption.
+Qed.
+
+(* the encoding hypothesis discharged from Proofs/PeccEnc.v (C03) *)
+Theorem xpub_string_roundtrip :
+  forall C hash256,
+  (forall x, length (hash256 x) = 32%nat) -> (forall x, bytes_ok (hash256 x)) ->
+  scalar_laws C -> ca C = 0 -> cp C mod 4 = 3 -> cp C < pow256 32 ->
+  forall (k : hdpub) ver s,
+  known_xpub ver = true -> length (pk_pfp k) = 4%nat -> length (pk_cc k) = 32%nat ->
+  bytes_ok (pk_pfp k) -> bytes_ok (pk_cc k) -> valid C (pk k) ->
+  xpub_str hash256 k (Some ver) = Ok s ->
+  parse_pub_str C hash256 s =
+    Ok {| pk := pk k; pk_cc := pk_cc k; pk_depth := pk_depth k; pk_pfp := pk_pfp k;
+          pk_num := pk_num k; pk_net := net_of_xpub ver; pk_ver := ver |}.
+Proof.
+  intros C h Hl Ho SL Ha H4 H256. apply (xpub_string_roundtrip_enc C h Hl Ho).
+  intros [[x y]|] s Hv Hs; [|discriminate].
+  exact (parse_point_sec C SL Ha H4 H256 x y true s Hv Hs).
+Qed.
+
+Theorem xpub_string_roundtrip_default :
+  forall C hash256,
+  (forall x, length (hash256 x) = 32%nat) -> (forall x, bytes_ok (hash256 x)) ->
+  scalar_laws C -> ca C = 0 -> cp C mod 4 = 3 -> cp C < pow256 32 ->
+  forall (k : hdpub) s,
+  known_xpub (pk_ver k) = true -> length (pk_pfp k) = 4%nat -> length (pk_cc k) = 32%nat ->
+  bytes_ok (pk_pfp k) -> bytes_ok (pk_cc k) -> valid C (pk k) ->
+  xpub_str hash256 k None = Ok s ->
+  parse_pub_str C hash256 s =
+    Ok {| pk := pk k; pk_cc := pk_cc k; pk_depth := pk_depth k; pk_pfp := pk_pfp k;
+          pk_num := pk_num k; pk_net := net_of_xpub (pk_ver k); pk_ver := pk_ver k |}.
+Proof.
+  intros C h Hl Ho SL Ha H4 H256 k s. rewrite xpub_str_default.
+  exact (xpub_string_roundtrip C h Hl Ho SL Ha H4 H256 k (pk_ver k) s).
+Qed.
+
+(* the converse at STRING level: a string that parses is exactly what the parsed key prints
+   (Base58 decoding is injective: Proofs/Base58ConvP.v) *)
+Theorem xprv_string_parse_serialize :
+  forall C hash256, (forall x, length (hash256 x) = 32%nat) ->
+  forall s k, parse_priv_str C hash256 s = Ok k -> xprv_str hash256 k None = Ok s.
+Proof.
+  intros C h Hl s k H. unfold parse_priv_str in H. apply bind_ok in H as (raw & Hdec & Hp).
+  destruct (raw_decode_base58_encode h s raw Hdec Hl) as [Hb He].
+  unfold xprv_str. rewrite (xprv_parse_serialize C raw k Hb Hp). exact He.
+Qed.
+
+Theorem xpub_string_parse_serialize :
+  forall C hash256, (forall x, length (hash256 x) = 32%nat) -> cp C mod 2 = 1 ->
+  forall s k, parse_pub_str C hash256 s = Ok k -> xpub_str hash256 k None = Ok s.
+Proof.
+  intros C h Hl Hodd s k H. unfold parse_pub_str in H. apply bind_ok in H as (raw & Hdec & Hp).
+  destruct (raw_decode_base58_encode h s raw Hdec Hl) as [Hb He].
+  unfold xpub_str. rewrite (xpub_parse_serialize C Hodd raw k Hb Hp). exact He.
+Qed.
+
+(* malformed strings: wrong check bytes, wrong payload length, altered payload *)
+Theorem xkey_string_rejects :
+  forall C hash256,
+  (forall x, length (hash256 x) = 32%nat) -> (forall x, bytes_ok (hash256 x)) ->
+  (forall raw c s, bytes_ok raw -> bytes_ok c -> length c = 4%nat -> c <> firstn 4 (hash256 raw) ->
+     encode_base58 (raw ++ c) = Ok s ->
+     parse_priv_str C hash256 s = Err /\ parse_pub_str C hash256 s = Err) /\
+  (forall b s, bytes_ok b -> length b <> 78%nat -> encode_base58_checksum hash256 b = Ok s ->
+     parse_priv_str C hash256 s = Err /\ parse_pub_str C hash256 s = Err) /\
+  (forall raw raw' s', bytes_ok raw -> bytes_ok raw' -> raw' <> raw ->
+     encode_base58 (raw' ++ firstn 4 (hash256 raw)) = Ok s' ->
+     (parse_priv_str C hash256 s' = Err /\ parse_pub_str C hash256 s' = Err) \/
+     firstn 4 (hash256 raw') = firstn 4 (hash256 raw)) /\
+  (forall s, ~ Forall (fun ch => In ch b58_alphabet) s ->
+     parse_priv_str C hash256 s = Err /\ parse_pub_str C hash256 s = Err).
+Proof.
+  intros C h Hl Ho. split; [|split; [|split]].
+  - intros raw c s. exact (xkey_str_bad_checksum C h raw c s).
+  - intros b s. exact (xkey_str_wrong_length C h Hl Ho b s).
+  - intros raw raw' s'. exact (xkey_str_tamper C h Hl Ho raw raw' s').
+  - intros s Hs. unfold parse_priv_str, parse_pub_str, raw_decode_base58.
+    destruct (b58_to_bytes s) as [c|] eqn:E; [|split; reflexivity].
+    exfalso. apply Hs. apply b58_to_bytes_ok_iff. eauto.
+Qed.
